@@ -38,7 +38,7 @@ CHECKS = {
     "C12": {"level": "exploration", "scheduled": True,
             "parts": [part("TestC12", 8, 150, 16, 3000), part("TestC12Lru", 2, 2000, 4, 100000)]},
     "C19": {"level": "exploration", "scheduled": True,
-            "parts": [part("TestC19", 8, 100, 16, 2000)]},
+            "parts": [part("TestC19", 8, 300, 16, 2500)]},
     "C15": {"level": "exploration", "scheduled": True,
             "parts": [part("TestC15", 8, 40, 16, 600),
                       part("TestC15Race", 1, 25, 2, 300, race=True, env={"GOMAXPROCS": "1"}),
